@@ -17,6 +17,7 @@ def jobs(pid, tier):
                      need_outcomes=['returned:' + f for f in
                                     ('not', 'and', 'or', 'xor', 'implies', 'equiv', 'diff',
                                      'forall', 'exists', 'ite')] + ['arity_refused']))
+        J.append(Job('k8_gc', dict(N=4, L=2, roots=0, nondet=False, ce=1), need_outcomes=['collected']))
         J.append(Job('k6_autoref_ops', dict(N=5, L=3) if q else dict(N=6, L=3),
                      need_outcomes=['returned:' + o for o in
                                     ('~', '&', '|', 'implies', 'equiv', '<=', '<', '==', '!=', 'ite')]))
@@ -34,6 +35,8 @@ def jobs(pid, tier):
     if pid == 'C03':
         J.append(Job('quant', dict(N=4, L=2), need_outcomes=['returned:' + e for e in
                      ('quantify_names', 'quantify_levels', 'exist_forall', 'apply')]))
+        J.append(Job('quant', dict(N=3, L=3, entries=['quantify_names', 'apply']),
+                     need_outcomes=['returned:quantify_names']))
         if q:
             J.append(Job('quant', dict(N=5, L=3, maxq=1, entries=['quantify_names']),
                          need_outcomes=['returned:quantify_names']))
@@ -44,8 +47,7 @@ def jobs(pid, tier):
                      ('cofactor', 'compose1', 'compose2', 'rename', 'empty')]))
         J.append(Job('let', dict(N=4 if q else 5, L=3, kinds=['cofactor', 'compose1', 'rename']),
                      need_outcomes=['returned:cofactor', 'returned:compose1', 'returned:rename']))
-        if not q:
-            J.append(Job('let', dict(N=5, L=3, kinds=['compose2']), need_outcomes=['returned:compose2']))
+        J.append(Job('let', dict(N=3 if q else 5, L=3, kinds=['compose2']), need_outcomes=['returned:compose2']))
     if pid == 'C05':
         J.append(Job('lexer_table', {}, need_outcomes=['table'], procs=1))
         J.append(Job('roundtrip', dict(N=4 if q else 5, L=3, flavour='bdd'), need_outcomes=['round_trip']))
@@ -84,6 +86,9 @@ def jobs(pid, tier):
         if not q:
             J.append(Job('copy', dict(N=4, L=3, NT=3, extra=0, variants=['copy_bdd', '_copy.copy_bdd']),
                          need_outcomes=['returned:copy_bdd']))
+    if pid == 'C12':
+        J.append(Job('pickle_rt', dict(N=4, L=2, NT=3), need_outcomes=['loaded:' + v for v in
+                     ('fresh_list', 'fresh_dict', 'fresh_rootless', 'declared_same', 'declared_other_nolevels', 'manager')] + ['refused']))
     if pid == 'C13':
         J.append(Job('image', dict(N=4, L=2, styles=['names']), need_outcomes=['returned:preimage', 'returned:image']))
         J.append(Job('image', dict(N=3, L=2, styles=['levels']), need_outcomes=['returned:preimage', 'returned:image']))
